@@ -236,6 +236,9 @@ def families(tier, horizon=25):
                name="dipoles/dipole_factors_inside_first*3+debug", info={"debug_logging": True}),
         Spec("coulomb/cell_veto+debug", J + "coulomb_atoms/cell_veto.ini", horizon=horizon, tags=("shipped",),
              info={"debug_logging": True}),
+        # dumps inside the horizon (the shipped interval is 1100): the pickled state must be consistent in itself
+        Spec("coulomb/power_bounded_dump+dumps", J + "coulomb_atoms/power_bounded_dump.ini", horizon=horizon,
+             overrides={("FixedIntervalDumpingEventHandler", "dumping_interval"): "0.29"}, tags=("shipped",)),
         # "late in a very long run": every lazy-deletion counter of the heap scheduler a few trashes below 2^32
         scaled(J + "coulomb_atoms/power_bounded.ini", 4, horizon=horizon, name="coulomb/power_bounded*4@2^32",
                info={"preset_counters": 2 ** 32 - 4}),
